@@ -19,6 +19,6 @@ SPEC = dict(
             "per-algorithm meaning (proved constant for LBFGS, measured constants for LBFGSB/IPOPT/CMAES, see notes/C39.md); "
             "IPOPT evaluations are held to its documented bounds_relax_factor 1e-8 and are not claimed for an infeasible start",
     assumptions=["the harness's OptimizerSystem logs every point it is asked to evaluate (component-wise envelope over all, "
-                 "first 400/1500 points verbatim)",
+                 "first 400 points verbatim)",
                  "CMA-ES reproducibility is checked under the documented precondition maxTimeFractionForEigendecomposition=1"],
 )
